@@ -81,18 +81,14 @@ def prover_schedule(F, collect=None):
         if it[0] == "call" and it[1]["what"] == "ipp_create":
             n = it[1]["n"]
             h = C["h"]
-            pre = C["info"].get("pre_while", {})
             cfields = []
-            first_L = ipp.pick_then(pre.get("L_vec"))
-            first_R = ipp.pick_then(pre.get("R_vec"))
-            for nm, vv in (("pf.L[*]", first_L), ("pf.R[*]", first_R)):
-                if isinstance(vv, Vec) and vv.segs:
-                    cfields.append((nm, vv.index(sp.Integer(0))))
-            for g in C["info"]["rounds"]:
-                for nm, key in (("pf.L[*]", "L_vec"), ("pf.R[*]", "R_vec")):
-                    vv = g["post"].get(key)
-                    if isinstance(vv, Vec) and vv.segs:
-                        cfields.append((nm, vv.index(sp.Integer(0))))
+            cret = C["ret"]
+            for nm, fld in (("pf.L[*]", "L_vec"), ("pf.R[*]", "R_vec")):
+                o_ = cret.fields.get(fld) if isinstance(cret, Struct) else None
+                if isinstance(o_, Opaque) and o_.what == "rounds-list":
+                    for vv in (ipp.pick_then(o_.info["first"]), o_.info["generic"]):
+                        if isinstance(vv, Vec) and vv.segs:
+                            cfields.append((nm, vv.index(sp.Integer(0))))
             from .interp import subst_val
 
             m_ = {h: sp.Rational(1, 2) * n}
